@@ -3320,7 +3320,7 @@ yin_parse_element_generic(struct lysp_yin_ctx *ctx, enum ly_stmt parent_stmt, st
         while (ctx->xmlctx->status == LYXML_ELEMENT) {
             /* parse subelements */
             ret = yin_parse_element_generic(ctx, (*element)->kw, &new);
-            LY_CHECK_GOTO(ret, cleanup);
+            LY_CHECK_GOTO(!new, cleanup);
             if (!(*element)->child) {
                 /* save first */
                 (*element)->child = new;
@@ -3328,6 +3328,9 @@ yin_parse_element_generic(struct lysp_yin_ctx *ctx, enum ly_stmt parent_stmt, st
                 last->next = new;
             }
             last = new;
+
+            /* even a partially parsed subelement was stored to be freed */
+            LY_CHECK_GOTO(ret, cleanup);
 
             assert(ctx->xmlctx->status == LYXML_ELEM_CLOSE);
             LY_CHECK_GOTO(ret = lyxml_ctx_next(ctx->xmlctx), cleanup);
@@ -3365,6 +3368,7 @@ LY_ERR
 yin_parse_extension_instance(struct lysp_yin_ctx *ctx, const void *parent, enum ly_stmt parent_stmt,
         LY_ARRAY_COUNT_TYPE parent_stmt_index, struct lysp_ext_instance **exts)
 {
+    LY_ERR ret;
     struct lysp_ext_instance *e;
     struct lysp_stmt *last_subelem = NULL, *new_subelem = NULL;
     char *ext_name;
@@ -3437,13 +3441,17 @@ yin_parse_extension_instance(struct lysp_yin_ctx *ctx, const void *parent, enum 
                 LY_CHECK_RET(yin_parse_extension_instance(ctx, e, LY_STMT_EXTENSION_INSTANCE, 0, &e->exts));
             } else { */
 
-            LY_CHECK_RET(yin_parse_element_generic(ctx, LY_STMT_EXTENSION_INSTANCE, &new_subelem));
+            ret = yin_parse_element_generic(ctx, LY_STMT_EXTENSION_INSTANCE, &new_subelem);
+            LY_CHECK_RET(!new_subelem, ret);
             if (!e->child) {
                 e->child = new_subelem;
             } else {
                 last_subelem->next = new_subelem;
             }
             last_subelem = new_subelem;
+
+            /* even a partially parsed subelement was stored to be freed */
+            LY_CHECK_RET(ret);
 
             assert(ctx->xmlctx->status == LYXML_ELEM_CLOSE);
             LY_CHECK_RET(lyxml_ctx_next(ctx->xmlctx));
